@@ -92,6 +92,32 @@ class Sym:
         raise EngineError("host truth value of a symbolic term requested (use Interp.truth / spec helpers)")
 
 
+class FSpec:
+    """a non-finite float: kind in {'inf', '-inf', 'nan'} (IEEE comparison semantics in ops)"""
+
+    def __init__(self, kind, pytype=None):
+        self.kind = kind
+        self.pytype = pytype
+
+    def __repr__(self):
+        return f"float({self.kind!r})"
+
+
+class GenericColl:
+    """a collection of arbitrary (unbounded) length described by ONE generic element: every element of the
+    real collection is an instance of `elem`.  Produced by harness iterables and by comprehensions ranging
+    over them (result[i] = body(source[i]) for every i).  kind: 'list' | 'dict' | 'items'."""
+
+    def __init__(self, kind, elem, source, parent=None):
+        self.kind = kind
+        self.elem = elem
+        self.source = source
+        self.parent = parent
+
+    def __repr__(self):
+        return f"<generic {self.kind} over {self.source!r}: {self.elem!r}>"
+
+
 class Obj:
     """instance of an object-language class"""
 
